@@ -125,25 +125,32 @@ def no_bridgehead_alkenes(m):
 
 
 def ring_double_bonds_consistent(m, max_ring=7):
-    """False for anti-Bredt monsters: a double bond lying in several small rings whose 'substituents inside the ring are
-    cis' requirements contradict each other (e.g. the bridgehead alkene of bicyclo[1.1.1]pent-1-ene: both small rings
-    reach one end of the bond through the same atom). No planar arrangement exists for such a bond."""
+    """False for anti-Bredt monsters: a double bond lying in several small rings (ALL simple cycles up to max_ring
+    atoms, not only the SSSR ones) whose 'substituents inside the ring are cis' requirements contradict each other, e.g.
+    the bridgehead alkene of a bicyclo[3.1.1]heptene or bicyclo[1.1.1]pentene. No planar arrangement exists for such
+    a bond and which ring an SSSR perception reports for it depends on the atom numbering."""
     from rdkit import Chem
 
-    ri = m.GetRingInfo()
+    adj = {a.GetIdx(): [n.GetIdx() for n in a.GetNeighbors()] for a in m.GetAtoms()}
     for b in m.GetBonds():
         if b.GetBondType() != Chem.BondType.DOUBLE and not b.GetIsAromatic():
             continue
         x, y = b.GetBeginAtomIdx(), b.GetEndAtomIdx()
         pairs = set()
-        for ring in ri.AtomRings():
-            if x in ring and y in ring and len(ring) <= max_ring:
-                nx = [n.GetIdx() for n in m.GetAtomWithIdx(x).GetNeighbors() if n.GetIdx() != y and n.GetIdx() in ring]
-                ny = [n.GetIdx() for n in m.GetAtomWithIdx(y).GetNeighbors() if n.GetIdx() != x and n.GetIdx() in ring]
-                if len(nx) != 1 or len(ny) != 1:
-                    return False
-                pairs.add((nx[0], ny[0]))
-        # the cis relation must be a partial matching: no atom paired with two different partners
+        # all simple paths x -> y of <= max_ring - 1 bonds that avoid the bond itself
+        stack = [(x, (x,))]
+        while stack:
+            cur, path = stack.pop()
+            if len(path) > max_ring:
+                continue
+            for n in adj[cur]:
+                if n == y:
+                    if len(path) >= 2:
+                        pairs.add((path[1], path[-1]))
+                    continue
+                if n in path:
+                    continue
+                stack.append((n, path + (n,)))
         if len({p[0] for p in pairs}) != len(pairs) or len({p[1] for p in pairs}) != len(pairs):
             return False
     return True
